@@ -1026,7 +1026,7 @@ REMOVED = RemovedPart()
 # ---------------------------------------------------------------------------------------------------------------------
 import contextlib as _ctx  # noqa: E402
 
-PR_UNIV = ["s:a", "s: b", "s:\u2502 c", "i:7", "s:e e", "e:1", "t:1,2", "s:`-", "s:"]
+PR_UNIV = ["s:a", "s: b", "s:\u2502 c", "i:7", "s:e e", "e:1", "t:1,2", "s:`-", "s:", "s:it's", "s:q\"d\\"]
 PR_STYLES = [["default"], ["name", "round43"], ["name", "list"], ["name", "ascii11"], ["name", "space2"], ["name", "nope"], ["name", ""],
              ["custom", ["  ", "| ", "`-", "+-"]], ["custom", ["a", "b"]]]
 PR_TITLES = [None, False, True, "My \u2514 title", ""]
@@ -1119,12 +1119,28 @@ class PrintPart:
             elif err is not None or written != want + "\n":
                 fails.append(f"print(style={a!r}, title={title!r}, join={join!r}) wrote {written!r}, format gives {want!r}")
             obs.append([-1, H.err_class(err)] if err is not None else [0, 1 if fg else 0, written])
+        # the two default templates on every node (a plain node has no `kind`: AttributeError)
+        from nutree import Node as _Node
+        from nutree.typed_tree import TypedNode as _TypedNode
+        robs = []
+        for n in nodes:
+            row = []
+            for templ in (_Node.DEFAULT_RENDER_REPR, _TypedNode.DEFAULT_RENDER_REPR):
+                try:
+                    row.append([0, templ.format(node=n)])
+                except AttributeError:
+                    row.append([-1])
+            robs.append(row)
+            if row[0] != [0, repr(n._data)] or (typed and row[1] != [0, f"{n._kind} \u2192 {n._data}"]) or (not typed and row[1] != [-1]):
+                fails.append(f"default rendering of node {H.nid(n)}: {row}")
+        obs = [obs, robs]
         rends = H.coq_list(f"({H.nid(n)}, {H.coq_text(rend[id(n)])})" for n in nodes)
+        reprs = H.coq_list(f"({H.nid(n)}, {H.coq_text(repr(n._data))})" for n in nodes if not (isinstance(n._data, str) and n._data.isascii()))
         calls = H.coq_list(f"({pr_coq_style(st)}, {pr_coq_title(t)}, {H.coq_text(j)}, {H.coq_bool(fg)})" for st, t, j, fg in desc["calls"])
-        coq = f"(PC {H.coq_forest(tree._root, U)} {rends} {H.coq_text('TypedTree' if typed else 'Tree')} {H.coq_text(desc['name'])} {calls})"
+        coq = f"(PC {H.coq_forest(tree._root, U)} {rends} {H.coq_text('TypedTree' if typed else 'Tree')} {H.coq_text(desc['name'])} {calls} {reprs})"
         return Case(desc=desc, coq_input=coq, impl_obs=obs, oracle_fail=("print: " + fails[0]) if fails else None,
                     nontrivial=len(nodes) >= 1, key=H.digest(desc),
-                    stats=dict(nodes=len(nodes), typed=typed, errors=sum(1 for o in obs if o[0] == -1)))
+                    stats=dict(nodes=len(nodes), typed=typed, errors=sum(1 for o in obs[0] if o[0] == -1)))
 
 
 PRINT = PrintPart()
@@ -1522,3 +1538,110 @@ class WritersPart:
 
 
 WRITERS = WritersPart()
+
+
+# ---------------------------------------------------------------------------------------------------------------------
+# COMMONMISC: check_python_version / PYTHON_VERSION / MIN_PYTHON_VERSION_INFO, the exception hierarchy
+# ---------------------------------------------------------------------------------------------------------------------
+class _FakeSys:
+    def __init__(self, vi):
+        self.version_info = vi
+
+
+class CommonMiscPart:
+    tag = "COMMONMISC"
+    case_module = "CaseMiscCommon"
+    case_vo = "theories/Cases/CaseMiscCommon.vo"
+    run_fn = "run_misc_common"
+    rule = ("common.check_python_version under a patched sys.version_info (27 interpreter versions around the minimum) x 14 minimum "
+            "tuples of 1..5 components (equal prefixes, longer than three components -> TypeError against 'final'), warnings recorded; "
+            "PYTHON_VERSION; the issubclass matrix of TreeError / UniqueConstraintError / AmbiguousMatchError / RuntimeError / "
+            "ValueError against the lifted class table; oracle: plain tuple comparison, one DeprecationWarning iff False, and the two "
+            "library errors raised by a real sibling clash / ambiguous lookup are caught as TreeError and RuntimeError")
+
+    MINS = [[3, 8], [3, 8, 0], [3], [4], [2, 99], [3, 12], [3, 12, 1], [3, 12, 2], [99, 1], [3, 8, 0, 0], [3, 12, 1, 0], [3, 12, 1, 0, 0], [0], [3, 7, 9]]
+
+    def descs(self, tier, rng):
+        for a in (2, 3, 4):
+            for b in (7, 8, 12):
+                for c in (0, 1, 2):
+                    yield dict(kind="version", cur=[a, b, c], mins=self.MINS)
+        yield dict(kind="classes", names=["TreeError", "UniqueConstraintError", "AmbiguousMatchError", "RuntimeError", "ValueError"])
+
+    def run(self, desc) -> Case:
+        import sys as _sys
+        import warnings
+        import nutree.common as NC
+        if desc["kind"] == "classes":
+            import builtins
+            cls = [getattr(NC, n, None) or getattr(builtins, n) for n in desc["names"]]
+            obs = [[issubclass(a, b) for b in cls] for a in cls]
+            fails = []
+            # the library's own errors are TreeErrors (and RuntimeErrors)
+            t = Tree("c")
+            t.add("a")
+            for what, fn in (("sibling clash", lambda: t.add("a")), ("ambiguous lookup", lambda: self._ambiguous())):
+                try:
+                    fn()
+                    fails.append(f"{what}: no exception")
+                except NC.TreeError as e:
+                    if not isinstance(e, RuntimeError):
+                        fails.append(f"{what}: not a RuntimeError")
+                except Exception as e:  # noqa: BLE001
+                    fails.append(f"{what}: {type(e).__name__} is not a TreeError")
+            coq = f"(CClasses {H.coq_list(H.coq_text(n) for n in desc['names'])})"
+            return Case(desc=desc, coq_input=coq, impl_obs=obs, oracle_fail=("common: " + fails[0]) if fails else None, key=H.digest(desc),
+                        stats=dict(kind="classes"))
+        cur = desc["cur"]
+        real3 = list(_sys.version_info[:3])
+        obs, fails = [], []
+        old = NC.sys
+        NC.sys = _FakeSys(tuple(cur) + ("final", 0))
+        try:
+            for m in desc["mins"]:
+                with warnings.catch_warnings(record=True) as rec:
+                    warnings.simplefilter("always")
+                    try:
+                        r = NC.check_python_version(tuple(m))
+                        err = None
+                    except Exception as e:  # noqa: BLE001
+                        r, err = None, e
+                msgs = [str(w.message) for w in rec]
+                # the statement: plain tuple comparison
+                try:
+                    want = not (tuple(cur) + ("final", 0) < tuple(m))
+                    werr = None
+                except TypeError as e:
+                    want, werr = None, e
+                if werr is not None:
+                    if not isinstance(err, TypeError):
+                        fails.append(f"min {m}: expected TypeError")
+                    obs.append([-1, H.err_class(err)] if err is not None else [bool(r), []])
+                    continue
+                if err is not None or r is not want:
+                    fails.append(f"running {cur}, minimum {m}: answered {r!r} ({type(err).__name__ if err else ''}), expected {want}")
+                if (len(msgs) == 1) != (want is False) or any(w.category is not DeprecationWarning for w in rec):
+                    fails.append(f"running {cur}, minimum {m}: {len(msgs)} warning(s) for answer {want}")
+                if msgs and (".".join(str(x) for x in m[:3]) not in msgs[0] or NC.PYTHON_VERSION not in msgs[0]):
+                    fails.append(f"warning text: {msgs[0]!r}")
+                obs.append([-1, H.err_class(err)] if err is not None else [bool(r), msgs[:1]])
+        finally:
+            NC.sys = old
+        if NC.PYTHON_VERSION != ".".join(str(x) for x in real3):
+            fails.append(f"PYTHON_VERSION = {NC.PYTHON_VERSION!r}")
+        zl = lambda l: H.coq_list(H.z(x) for x in l)   # noqa: E731
+        coq = f"(CVersion {zl(real3)} {zl(cur)} {H.coq_list(zl(m) for m in desc['mins'])})"
+        return Case(desc=desc, coq_input=coq, impl_obs=[NC.PYTHON_VERSION, obs], oracle_fail=("common: " + fails[0]) if fails else None,
+                    key=H.digest(desc), stats=dict(kind="version", falses=sum(1 for o in obs if o[0] is False)))
+
+    @staticmethod
+    def _ambiguous():
+        t = Tree("amb")
+        a = t.add("a")
+        b = t.add("b")
+        a.add("x")
+        b.add("x")
+        return t["x"]
+
+
+COMMONMISC = CommonMiscPart()
